@@ -70,7 +70,7 @@ def reifyCell (rec : Item → Option AVal) : Cell → Option AVal
 /-- What stands for everything nested deeper than the depth bound (cyclic structures are unbounded):
 an opaque object.  `is_assertable` gives up below depth 4, so nothing the observer does looks at it
 when the bound is larger than that. -/
-def tooDeep : AVal := .obj ⟨"<deeper than the bound>", []⟩ none
+def tooDeep : AVal := .obj ⟨"<deeper than the bound>", [], 0⟩ none
 
 /-- `copy.deepcopy`: the tree reachable from the item in heap `h`, cut off below depth `fuel`
 (`none` = dangling reference). -/
@@ -287,8 +287,8 @@ def SnapshotOf.flat (alias : String) (s : Snapshot) : List (String × AVal) :=
   flatRefs "" s.vars ++ flatRefs (alias ++ ".") s.modFields ++ flatClasses alias s.classFields
 
 /-- The namespace of the exported test right after the statement of this snapshot. -/
-def nsAt (alias : String) (enums : List String) (types : List (List String × TypeId)) (s : Snapshot) :
-    Namespace :=
-  { vars := s.flat alias, enumClasses := enums, types := types, hasPytest := true }
+def nsAt (alias : String) (enums : List String) (globals : List (String × PyRef)) (world : World)
+    (s : Snapshot) : Namespace :=
+  { vars := s.flat alias, enumClasses := enums, globals := globals, world := world, hasPytest := true }
 
 end PynguinModel.AssertRender
